@@ -115,6 +115,8 @@ class Ctx:
                 _ARMED = False
                 if "Watchdog" in repr(e):  # alarm raised inside a ctypes callback surfaces as ctypes.ArgumentError
                     result = ("watchdog", None)
+                elif isinstance(e, MemoryError):   # resource exhaustion is not a verdict (same standing as a timeout)
+                    result = ("watchdog", None)
                 else:
                     self.last_exc = e
                     result = ("exc", e)
@@ -188,6 +190,10 @@ def main():
         print("replay verdict:", "violated" if ctx.violations else ("held" if ctx.judged else "inconclusive"), ctx.reasons)
         sys.exit(1 if ctx.violations else 0)
     if sys.argv[1] == "--child":
+        try:    # a runaway case (one C06 evaluation once grew to 60 GB) must be the kernel's first choice, not a bystander;
+            open("/proc/self/oom_score_adj", "w").write("1000")     # the supervisor restarts the shard afterwards
+        except Exception:
+            pass
         pid, tier, seed, shard, nshards, out, budget, attempt = sys.argv[2:10]
         mod = importlib.import_module(f"islamon.checks.{pid.lower()}")
         ctx = Ctx(pid, tier, int(seed), int(shard), int(nshards), out, float(budget))
